@@ -344,6 +344,41 @@ def build(repo):
         vf.spec_obligation("law::%s" % name, m.group(1), ("C19",))
 
     # lock times: cmp_by_consensus (two one-liners; also covered by the Kani unit k_locktime)
+    # bitcoin::relative::LockTime as the dependency documents it (BIP68): From<RelLockTime> keeps the type flag (bit 22) and the
+    # low 16 bits only; PartialOrd compares within one unit and is None across units.  Only so that a cmp_by_consensus written
+    # through the typed lock time is JUDGED (it identifies values that differ in the unused bits) instead of not compiling.
+    vf.raw(r"""
+mod relative {
+    use super::*;
+    #[derive(Clone, Copy, PartialEq, Eq)]
+    pub(crate) enum LockTime { Blocks(u16), Time(u16) }
+    pub(crate) open spec fn rcmp(a: int, b: int) -> cmp::Ordering { if a < b { cmp::Ordering::Less } else if a == b { cmp::Ordering::Equal } else { cmp::Ordering::Greater } }
+    pub(crate) open spec fn of_consensus(n: u32) -> LockTime {
+        if n & 0x0040_0000u32 != 0 { LockTime::Time((n & 0xffffu32) as u16) } else { LockTime::Blocks((n & 0xffffu32) as u16) }
+    }
+    impl LockTime {
+        #[verifier::external_body]
+        pub(crate) fn from(t: RelLockTime) -> (r: LockTime) ensures r == of_consensus(t.consensus()) { unimplemented!() }
+        #[verifier::external_body]
+        pub(crate) fn partial_cmp(&self, other: &LockTime) -> (r: Option<cmp::Ordering>)
+            ensures r == (match (*self, *other) {
+                (LockTime::Blocks(a), LockTime::Blocks(b)) => Some(rcmp(a as int, b as int)),
+                (LockTime::Time(a), LockTime::Time(b)) => Some(rcmp(a as int, b as int)),
+                _ => None::<cmp::Ordering>,
+            }) { unimplemented!() }
+    }
+}
+pub assume_specification [<bool as Ord>::cmp] (a: &bool, b: &bool) -> (r: cmp::Ordering)
+    ensures *a == *b ==> r is Equal, !*a && *b ==> r is Less, *a && !*b ==> r is Greater;
+impl RelLockTime {
+    #[verifier::external_body]
+    fn is_time_locked(&self) -> (r: bool) ensures r == (self.consensus() & 0x0040_0000u32 != 0) { unimplemented!() }
+    #[verifier::external_body]
+    fn is_height_locked(&self) -> (r: bool) ensures r == (self.consensus() & 0x0040_0000u32 == 0) { unimplemented!() }
+}
+""", keep_vis=True)
+    vf.trust("mod relative { LockTime, From<RelLockTime>, partial_cmp }, RelLockTime::is_time_locked / is_height_locked, <bool as Ord>::cmp",
+             "bitcoin::relative::LockTime per BIP68 (type flag bit 22, value = low 16 bits; comparable within one unit only); std bool order false < true; not used by the unchanged code")
     with vf.block("impl AbsLockTime"):
         vf.fn(ABSLT, "impl:AbsLockTime/fn:cmp_by_consensus", qual="AbsLockTime", props=PROPS,
               contract=Contract(ensures=[Clause("by_consensus", ("C19",), "r == u_cmp(self.consensus() as int, other.consensus() as int)")]))
